@@ -28,7 +28,7 @@ RULE = ("one case = EigenSolve configuration (dense/sparse, standard/generalised
         "changed matrices (cached shift-invert solver / flags reused) or a sparse solve (start-vector injection fired)")
 PROBES = ["sigma_inside_spectrum", "singular_B_on_constrained_dofs", "solver_reuse_3_matrices", "custom_sorting", "complex_hermitian",
           "general_complex_spectrum", "adjoint_cycle_between_responses", "sparse_eigvec_seed", "two_instances_interleaved",
-          "closest_to_sigma_compared", "dense_full_spectrum_compared"]
+          "closest_to_sigma_compared", "dense_full_spectrum_compared", "exact_zero_mean_eigenvector"]
 FAULT_KINDS = ["arpack_start_vector_varied"]
 COMPONENTS = {"real": ["pymoto.EigenSolve", "pymoto.solvers.auto_determine_solver / SolverSparseLU (shift-invert)",
                        "pymoto.AssembleStiffness / AssembleMass (FE pencils)", "scipy ARPACK (eigsh/eigs), LAPACK (eigh/eig)"],
@@ -61,16 +61,16 @@ def gen(rng, idx, tier):
     storage = str(rng.choice(["dense", "dense", "sparse", "fe"]))
     gen_ = bool(rng.random() < 0.5) or storage == "fe"
     if storage == "dense":
-        cls = str(rng.choice(["spd", "sym", "hpd", "herm", "general", "generalc"]))
-        n = int(rng.integers(2, 9))
+        cls = str(rng.choice(["spd", "sym", "hpd", "herm", "general", "generalc", "blocks2"]))
+        n = int(rng.integers(2, 20 if tier == "thorough" else 9))
     elif storage == "sparse":
         cls = str(rng.choice(["spd", "sym", "spd", "general"]))
-        n = int(rng.integers(8, 25))
+        n = int(rng.integers(8, 60 if tier == "thorough" else 25))
     else:
         cls, n = "fe", 0
     nobj = 2 if rng.random() < 0.15 else 1
     ops = []
-    for _ in range(int(rng.integers(2, 11))):
+    for _ in range(int(rng.integers(2, 20 if tier == "thorough" else 11))):
         o = int(rng.integers(0, nobj))
         r = rng.random()
         if r < 0.3:
@@ -128,7 +128,7 @@ class Inst:
         self.sA, self.sB, self.sW, self.sQ = S("A"), S("B"), S("lam"), S("Q")
         self.sparse = case["storage"] in ("sparse", "fe")
         cls = case["cls"]
-        self.herm = cls in ("spd", "sym", "hpd", "herm", "fe")
+        self.herm = cls in ("spd", "sym", "hpd", "herm", "fe", "blocks2")
         self.cplx = cls in ("hpd", "herm", "generalc")
         kw = {}
         fn = sort_fn(case["sort"])
@@ -163,7 +163,9 @@ class Inst:
             mcls = {"generalc": "general"}.get(c["cls"], c["cls"])
             self.A = G.make_matrix(dict(n=n, cls=mcls, cplx=self.cplx, sparse=sp, seed=self.a_seed, pattern="full" if not self.sparse else "banded"))
             self.B = None
-            if c["gen"]:
+            if c["gen"] and c["cls"] == "blocks2":
+                self.B = np.eye(n) * float(1.0 + (self.a_seed % 3))      # equal lumped masses keep the structure
+            elif c["gen"]:
                 self.B = G.make_matrix(dict(n=n, cls="hpd" if self.cplx else "spd", cplx=self.cplx, sparse=sp, seed=self.a_seed + 3,
                                             pattern="banded"))
             self.bc = None
@@ -319,6 +321,8 @@ def run(case):
             if r > 1e-7:
                 bad = ("residual", f"pair {i}: |A q - lambda B q| = {r:.2e} |A||q| (lambda={w})")
                 break
+            if not np.iscomplexobj(q) and np.mean(q) == 0.0:
+                probe("exact_zero_mean_eigenvector")
             qh = q / nq
             form = qh @ (Bd @ qh)
             if abs(form) > 1e-6:
